@@ -4,7 +4,7 @@ TLC (NumTheory.tla): primality by trial division, next/previous prime, modular i
 normalisation exactly as the stub's docstring states it, Legendre by Euler's criterion, Jacobi by multiplicativity
 over the factorisation, Kronecker by its extension rules, isqrt / iroot / is_square by definition, prime powers by
 factorisation, rational reconstruction as a relation (a ValueError is demanded exactly when no admissible pair
-exists).  The real stubs (MPYC_NOGMPY=1) are run on all pairs with |x|, |y| <= 25 (thorough: 60) plus random
+exists).  The real stubs (MPYC_NOGMPY=1) are run on all pairs with |x|, |y| <= 25 (thorough: 40) plus random
 pairs up to 300 (thorough 2000) and on unary arguments up to 2^15, and every recorded result is validated.
 """
 import json
@@ -21,10 +21,10 @@ INVS = ['PrimeOK', 'InvertOK', 'GcdextOK', 'SymbolOK', 'RootOK', 'FactorOK', 'Fa
 def run(ctx):
     wd = tlc.make_workdir()
     try:
-        job = {'seed': ctx.seed, 'small': 25 if ctx.quick else 60, 'pair_bound': 300 if ctx.quick else 2000,
-               'npairs': 1500 if ctx.quick else 15000, 'unary_bound': 1 << 15, 'unary_all': 400 if ctx.quick else 4000,
-               'nunary': 600 if ctx.quick else 6000, 'ratrec_moduli': [101, 257, 1009] if ctx.quick else [101, 257, 1009, 2003, 32749],
-               'nratrec': 150 if ctx.quick else 1500, 'bigpow': 12 if ctx.quick else 30}
+        job = {'seed': ctx.seed, 'small': 25 if ctx.quick else 40, 'pair_bound': 300 if ctx.quick else 2000,
+               'npairs': 1500 if ctx.quick else 5000, 'unary_bound': 1 << 15, 'unary_all': 400 if ctx.quick else 2000,
+               'nunary': 600 if ctx.quick else 3000, 'ratrec_moduli': [101, 257, 1009] if ctx.quick else [101, 257, 1009, 2003, 32749],
+               'nratrec': 150 if ctx.quick else 800, 'bigpow': 12 if ctx.quick else 30}
         jp, op = os.path.join(wd, 'job.json'), os.path.join(wd, 'ev.json')
         json.dump(job, open(jp, 'w'))
         try:
